@@ -3,6 +3,7 @@ import os, sys, importlib, glob
 sys.path.insert(0, os.path.dirname(os.path.dirname(os.path.abspath(__file__))))
 from harness import common as C
 C.setup_impl_path()
+C.tree_lock()
 done = set()
 for p in sorted(glob.glob(os.path.join(C.VERIF, 'harness', 'props', 'c*.py'))):
     try:
